@@ -283,7 +283,7 @@ def cargo_env(extra_rustflags=""):
 def kani_codegen(crate, scratch, log):
     t0 = time.time()
     tdir = os.path.join(scratch, "target")
-    cmd = ["cargo", "kani", "--only-codegen", "-Z", "stubbing", "--target-dir", tdir]
+    cmd = ["cargo", "kani", "--only-codegen", "-Z", "stubbing", "-Z", "unstable-options", "--no-assertion-reach-checks", "--target-dir", tdir]
     p = subprocess.run(cmd, cwd=crate, env=cargo_env(), stdout=subprocess.PIPE, stderr=subprocess.STDOUT, text=True)
     open(log, "w").write(p.stdout)
     if p.returncode != 0:
@@ -397,7 +397,9 @@ def cbmc_cmd(spec, goto, unwindset, extra=()):
     if spec.extra:
         cmd += spec.extra.split()
     cmd += list(extra)
-    cmd += [goto, "--json-ui", "--verbosity", "8"]
+    cmd += [goto, "--verbosity", "8"]
+    if "--trace" in extra:
+        cmd += ["--json-ui"]
     return cmd
 
 
@@ -432,67 +434,67 @@ IGNORED_CLASSES = {"reachability_check"}
 INCONCLUSIVE_CLASSES = {"unwind", "recursion"}
 
 
-def parse_cbmc_json(path, res):
+def parse_cbmc_text(path, res):
+    """Parse CBMC's plain-text UI (the JSON UI attaches a full trace to every satisfied cover and
+    reachability check: hundreds of MB and 3x the run time)."""
     try:
-        data = json.load(open(path))
-    except Exception as e:
         txt = open(path, errors="replace").read()
-        if "out of memory" in txt.lower() or "bad_alloc" in txt:
+    except Exception as e:
+        res.reason = f"no CBMC output ({e})"
+        return None
+    for m in re.finditer(r"Runtime Symex: ([\d.e+-]+)s", txt):
+        res.symex_s += float(m.group(1))
+    for m in re.finditer(r"Runtime Solver: ([\d.e+-]+)s", txt):
+        res.solver_s += float(m.group(1))
+    m = re.search(r"Generated (\d+) VCC\(s\), (\d+) remaining after simplification", txt)
+    if m:
+        res.vccs, res.vccs_remaining = int(m.group(1)), int(m.group(2))
+    for m in re.finditer(r"(\d+) variables, (\d+) clauses", txt):
+        res.vars, res.clauses = max(res.vars, int(m.group(1))), max(res.clauses, int(m.group(2)))
+    if "** Results:" not in txt:
+        low = txt.lower()
+        if "out of memory" in low or "bad_alloc" in low:
             res.reason = "out of memory"
         else:
-            res.reason = f"unparseable CBMC output ({e})"
+            tail = txt.strip().splitlines()[-1:] or [""]
+            res.reason = "no result list in CBMC output: " + tail[0][:200]
         return None
-    results, status = None, None
-    fnset = set()
-    for item in data:
-        if "messageText" in item:
-            m = item["messageText"]
-            mm = re.search(r"Runtime Symex: ([\d.e+-]+)s", m)
-            if mm:
-                res.symex_s += float(mm.group(1))
-            mm = re.search(r"Runtime Solver: ([\d.e+-]+)s", m)
-            if mm:
-                res.solver_s += float(mm.group(1))
-            mm = re.search(r"Generated (\d+) VCC\(s\), (\d+) remaining after simplification", m)
-            if mm:
-                res.vccs, res.vccs_remaining = int(mm.group(1)), int(mm.group(2))
-            mm = re.search(r"(\d+) variables, (\d+) clauses", m)
-            if mm:
-                res.vars, res.clauses = max(res.vars, int(mm.group(1))), max(res.clauses, int(mm.group(2)))
-            if item.get("messageType") == "ERROR":
-                res.reason = "CBMC error: " + m[:200]
-        if "result" in item:
-            results = item["result"]
-        if "cProverStatus" in item:
-            status = item["cProverStatus"]
-    if results is None:
-        if not res.reason:
-            res.reason = "no result list in CBMC output"
-        return None
-    res.props_total = len(results)
+    body = txt.split("** Results:", 1)[1]
     failed, inconc = [], []
-    for r in results:
-        loc = r.get("sourceLocation", {})
-        cls = loc.get("propertyClass") or r["property"].rsplit(".", 2)[-2]
-        fn = loc.get("function")
-        if fn:
-            fnset.add(fn)
+    fnset = set()
+    cur_file, cur_fn = None, None
+    rx = re.compile(r"^\[(?P<id>.+?)\] (?:line (?P<line>\d+) )?(?P<desc>.*): (?P<st>SUCCESS|FAILURE|UNKNOWN|ERROR)$")
+    for line in body.splitlines():
+        if not line.startswith("["):
+            m = re.match(r"^(?:(\S+) )?function (.+)$", line)
+            if m:
+                cur_file, cur_fn = m.group(1), m.group(2)
+            continue
+        m = rx.match(line)
+        if not m:
+            continue
+        pid, st = m.group("id"), m.group("st")
+        parts = pid.rsplit(".", 2)
+        cls = parts[-2] if len(parts) == 3 and parts[-1].isdigit() else "nobody"
+        if cur_fn and cur_file and not cur_file.startswith("/"):
+            fnset.add(cur_fn)
+        res.props_total += 1
         if cls in IGNORED_CLASSES:
             continue
-        st = r["status"]
+        desc = re.sub(r"\[KANI_CHECK_ID[^\]]*\]\s*", "", m.group("desc"))
         if cls == "cover":
             res.covers_total += 1
             if st == "FAILURE":
                 res.covers_sat += 1
             else:
-                res.covers_unsat.append(f"{loc.get('file')}:{loc.get('line')}")
+                res.covers_unsat.append(f"{cur_file}:{m.group('line')} {desc}")
             continue
         res.props_checked += 1
         if st == "SUCCESS":
             continue
-        entry = {"property": r["property"], "class": cls, "description": re.sub(r"\[KANI_CHECK_ID[^\]]*\]\s*", "", r.get("description", "")),
-                 "file": loc.get("file"), "line": loc.get("line"), "function": fn, "status": st}
-        if cls in INCONCLUSIVE_CLASSES or ".unwind." in r["property"] or ".recursion" in r["property"]:
+        entry = {"property": pid, "class": cls, "description": desc, "file": cur_file, "line": m.group("line"),
+                 "function": cur_fn, "status": st}
+        if cls in INCONCLUSIVE_CLASSES or cls == "nobody" or st != "FAILURE":
             inconc.append(entry)
         else:
             failed.append(entry)
@@ -527,7 +529,7 @@ def run_harness(spec, symtabs, workdir, want_witness=False):
         unwindset, table = resolve_unwindset(spec, goto, workdir)
         res.unwind_table = table
         res.unwindset = unwindset
-        outp = os.path.join(workdir, spec.fn + ".cbmc.json")
+        outp = os.path.join(workdir, spec.fn + ".cbmc.txt")
         t1 = time.time()
         rc, err = run(cbmc_cmd(spec, goto, unwindset), timeout=spec.cap, mem_gb=spec.mem, stdout_path=outp,
                       log=os.path.join(workdir, spec.fn + ".cbmc.log"))
@@ -535,7 +537,7 @@ def run_harness(spec, symtabs, workdir, want_witness=False):
         if rc == -999:
             res.reason = f"cap of {spec.cap}s hit"
             return res
-        parsed = parse_cbmc_json(outp, res)
+        parsed = parse_cbmc_text(outp, res)
         if parsed is None:
             if not res.reason:
                 res.reason = f"cbmc rc={rc}"
